@@ -55,6 +55,20 @@ def regen_calls(ctx):
     return []
 
 
+def regen_loop(ctx):
+    """Regenerates lean/Hive/Gen/C08_Loop.lean: BatchedWriter.runBatchWriter translated (go/ast) into a term of the language
+    of Hive/Model/BatchWriterLoop.lean; Hive/Props/BatchWriterLoop.lean proves that the protocol model's stepWriter is the
+    interpreted compiled term at every resting point, and that every reachable writer state is such a point."""
+    out = os.path.join(checklib.LEAN, "Hive", "Gen", "C08_Loop.lean")
+    tmp = os.path.join(ctx.scratch, "C08_Loop.lean")
+    args = ["go", "run", "./c08/loopgen", tmp, "Hive.Gen.C08Loop", os.path.join(ctx.repo, "kvstore/batch_writer.go")]
+    rc, log = checklib.sh(args, cwd=checklib.HARNESS, timeout=600)
+    if rc != 0 or not os.path.exists(tmp):
+        return [{"kind": "skeleton-extractor", "detail": checklib.tail(log, 20)}]
+    checklib.write_gen(ctx, out, open(tmp).read())
+    return []
+
+
 def regen(ctx):
     fails = checklib.regen_skeletons(ctx, [
         "kvstore/batch_writer.go:BatchedWriter.Enqueue", "kvstore/batch_writer.go:BatchedWriter.startBatchWriter",
@@ -64,11 +78,11 @@ def regen(ctx):
         "kvstore/batch_writer.go:type=BatchedWriter", "kvstore/batch_writer.go:type=Options",
         "kvstore/batch_collector.go:type=BatchCollector", "runtime/syncutils/mutex.go:type=Mutex"],
         extra_methods=["BatchWriteScheduled", "ResetBatchWriteScheduled", "BatchWrite", "BatchWriteDone", "Commit", "Cancel", "Batched"])
-    return (fails or []) + regen_stmts(ctx) + regen_coll(ctx) + regen_calls(ctx)
+    return (fails or []) + regen_stmts(ctx) + regen_coll(ctx) + regen_calls(ctx) + regen_loop(ctx)
 
 
 SPEC = {
-    "lean_props": ["Hive.Props.C08", "Hive.Props.BatchWriterTie", "Hive.Props.BatchWriterColl", "Hive.Props.BatchWriterCalls"],
+    "lean_props": ["Hive.Props.C08", "Hive.Props.BatchWriterTie", "Hive.Props.BatchWriterColl", "Hive.Props.BatchWriterCalls", "Hive.Props.BatchWriterLoop"],
     "regen": regen,
     "lean_namespace": "Hive.BatchWriter",
     "driver": "drv_c08",
@@ -88,9 +102,10 @@ SPEC = {
                  "C08_collector_methods", "C08_collector_new_derived", "C08_collector_Add_derived", "C08_collector_Commit_derived",
                  "C08_collector_Commit_error_derived", "C08_collector_committed_panics", "C08_model_Add_is_collector_Add",
                  "C08_model_Commit_is_collector_Commit",
-                 "C08_calls_flatten", "C08_model_Stop_is_source", "C08_model_Flush_is_source", "C08_model_startBatchWriter_is_source", "C08_calls_flatten_Enqueue", "C08_model_Enqueue_is_source", "C08_stmts_var_defaultOptions", "C08_stmts_NewBatchedWriter", "C08_stmts_Options_apply", "C08_stmts_WithQueueSize", "C08_stmts_WithBatchSize", "C08_stmts_WithBatchTimeout", "C08_stmts_BatchedWriter_startBatchWriter", "C08_stmts_BatchedWriter_StopBatchWriter", "C08_stmts_BatchedWriter_Enqueue", "C08_stmts_BatchedWriter_Flush", "C08_stmts_BatchedWriter_runBatchWriter", "C08_stmts_newBatchCollector", "C08_stmts_BatchCollector_Add", "C08_stmts_BatchCollector_Commit", "C08_stmts_CleanupTimer"],
-    "trusted_base": ["the go/ast translators harness/c08/collgen and callgen (pattern matching on source text; anything unrecognised becomes `.unsupported`) and the meaning given to their terms in Hive/Model/BatchWriterColl.lean / BatchWriterCalls.lean, for the derived parts (collector; StopBatchWriter, Flush, startBatchWriter, Enqueue)",
-                     "hand-written protocol model Hive/Model/BatchWriter.lean of kvstore/batch_writer.go + batch_collector.go (the loop / select structure of runBatchWriter is not derived), tied by (a) the trace predicate evaluated on traces of the real code, (b) the witness schedules replayed on the real code with trace equality, (c) regenerated synchronisation skeletons, type facts and normalised statements (guards, arguments, constants) of every anchored function",
+                 "C08_calls_flatten", "C08_model_Stop_is_source", "C08_model_Flush_is_source", "C08_model_startBatchWriter_is_source", "C08_calls_flatten_Enqueue", "C08_model_Enqueue_is_source",
+                 "C08_loop_compile", "C08_model_writer_is_source", "C08_reachable_writer_is_source", "C08_stmts_var_defaultOptions", "C08_stmts_NewBatchedWriter", "C08_stmts_Options_apply", "C08_stmts_WithQueueSize", "C08_stmts_WithBatchSize", "C08_stmts_WithBatchTimeout", "C08_stmts_BatchedWriter_startBatchWriter", "C08_stmts_BatchedWriter_StopBatchWriter", "C08_stmts_BatchedWriter_Enqueue", "C08_stmts_BatchedWriter_Flush", "C08_stmts_BatchedWriter_runBatchWriter", "C08_stmts_newBatchCollector", "C08_stmts_BatchCollector_Add", "C08_stmts_BatchCollector_Commit", "C08_stmts_CleanupTimer"],
+    "trusted_base": ["the go/ast translators harness/c08/collgen, callgen and loopgen (pattern matching on source text; anything unrecognised becomes `.unsupported`) and the meaning given to their terms in Hive/Model/BatchWriterColl.lean / BatchWriterCalls.lean / BatchWriterLoop.lean (Go semantics of mutex, Once, WaitGroup, atomics, channel send / select as instruction steps): every function of the two anchored files is derived this way",
+                     "hand-written protocol model Hive/Model/BatchWriter.lean of kvstore/batch_writer.go + batch_collector.go (now equal, step function by step function, to the interpreted generated programs), tied by (a) the trace predicate evaluated on traces of the real code, (b) the witness schedules replayed on the real code with trace equality, (c) regenerated synchronisation skeletons, type facts and normalised statements (guards, arguments, constants) of every anchored function",
                      "Go semantics of sync.Once / Mutex / WaitGroup / atomics / buffered and unbuffered channels / select as written in the model",
                      "Go toolchain, compiled Lean driver, harness trace recorder (one mutex-ordered event log)"],
     "modelled": ["Enqueue, startBatchWriter, StopBatchWriter, Flush, runBatchWriter, BatchCollector.Add/Commit as one atomic step per synchronisation-relevant operation",
@@ -102,7 +117,7 @@ SPEC = {
                  "variants kept for witnesses only: sysOld (Enqueue before the second fix), sysSwapped (loop condition loads swapped), sysNoTimer (no time-out alternative + Stop's wake-up flush, seeded r6-3)",
                  "BatchWriteObject implementations are the harness's (flag test-and-set, version counter, write modes set / delete / delete+set / set+delete; a delete is the value 0 of the trace predicate)"],
     "manifest": {
-        "text": "Protocol model (Hive.Conc.Sys) of BatchedWriter Enqueue/Stop/Flush/writer goroutine/collector with arbitrary queue size (0 = unbuffered rendezvous), batch size and thread pool; the property is the decidable trace predicate Spec.BatchWriter.ok/okFinal. C08_statement_holds proves the statement at full strength, no hypothesis on the schedule: C08_ok (no check of the predicate ever fails), C08_written_before_done, C08_done_once_per_scheduling, C08_store_is_last_write, C08_stop_waits (per Stop call, any number of overlapping Stop callers), C08_stop_waits_state, C08_racing_enqueue_all_or_nothing (okFinal once the writer has terminated), C08_late_enqueue_backs_out, C08_unbuffered_queue_empty, and the third clause C08_no_block_forever: from every reachable configuration and for every unfinished call there is a continuation, in which the calling thread does not move, after which it can take a step - constructed by well-founded descent (blocked queue send: the writer alone reaches a select, C08_enqueue_send_unblocked_by_writer; Stop in Wait: announced producers finish, the writer drains, commits and exits, C08_stop_wait_released; mutex: the holder releases; Once: the body thread finishes), on top of C08_waits_for_ranked (waits-for ranks Once > startStopMutex > WaitGroup/queue > writer) and C08_no_block_forever_partial (no reachable deadlock). Store errors are modelled as the code has them (sysE: any Batched()/Commit() call of the writer goroutine may fail, the goroutine panics, the process dies; simulated by sys): C08_store_error_safety (the predicate holds up to the crash), C08_store_error_crash_is_final, C08_failed_commit_batch_never_done (objects of a batch whose Commit failed: written, not committed, never done, nothing of it in the store), C08_store_error_stop_never_returns_witness (the third clause cannot hold then: a waiting Stop never returns); C08_timeout_alternative_needed_witness (without the time-out alternative of collectValues, Stop waking the writer by a flush request instead, a proved schedule deadlocks with an object written and never committed). Parts of the model are derived from the source on every run (go/ast translators collgen / callgen -> generated Lean terms -> interpreter): the collector (C08_collector_{new,Add,Commit,Commit_error}_derived, C08_collector_methods, C08_collector_committed_panics; C08_model_Add_is_collector_Add and C08_model_Commit_is_collector_Commit: the model's collector steps do what the translated Add / Commit do, in the same order, for every batch and batch size) and StopBatchWriter, Flush, startBatchWriter, Enqueue (C08_model_Stop_is_source, C08_model_Flush_is_source, C08_model_startBatchWriter_is_source, C08_model_Enqueue_is_source: stepStop / stepFlush / stepProd are the interpreted generated programs, program counter by instruction index, the yield point fused into the running check). Three defects were repaired (writeWg.Add before go; Enqueue counts before it checks running; the collector appends instead of indexing, so batch sizes below 1 no longer kill the process); the old Enqueue protocol is kept as sysOld with proved violating schedules C08_old_*_witness. Tie: every run's event trace (harness BatchWriteObjects writing set / delete / delete+set / set+delete + store wrapper that reads the store back after every commit, one mutex-ordered log) is judged by the Lean driver with the same predicate and by an independent index-based Go oracle (last BatchWrite per object wins, per commit and at the end); stress runs have 1-3 concurrent Stop callers, batch time-outs negative / 0 / 1ns / 1..50 ms / 250 ms, batch sizes 1..4 or default and - in a child process - 0, -1 and math.MinInt, queue sizes 0 (unbuffered) / 1..4 / default; same-batch scenario re-enqueues one object into one open batch with every pair of write modes; thousands of fresh writers per run race their very first Enqueue with StopBatchWriter (and a second Enqueue) from a spin barrier, each with a watchdog; the formerly failing schedules and a two-overlapping-Stops schedule are forced on the real code (verif yield point in Enqueue, BatchWriteScheduled callback), on buffered and unbuffered queues, and must reproduce, per participant, the model's trace on the corresponding Lean schedule; forced flush scenarios (one flush spanning several batches with the collector replaced inside the flush; a flush request pending while Stop clears running) and store-fail (child process, k-th Commit()/Batched() of the store fails: the process must die there, nothing done / committed / returned afterwards) each reproduce the model's witness run; every run's writer-goroutine log including its store calls (Batched, Cancel) and its termination must be a labelled run of the model's writer (wconfs); regenerated synchronisation skeletons (C08_skeleton_*), type facts (C08_skeleton_type_*) and normalised statements of all anchored functions, option constructors, NewBatchedWriter, newBatchCollector and the default options (C08_stmts_*).",
+        "text": "Protocol model (Hive.Conc.Sys) of BatchedWriter Enqueue/Stop/Flush/writer goroutine/collector with arbitrary queue size (0 = unbuffered rendezvous), batch size and thread pool; the property is the decidable trace predicate Spec.BatchWriter.ok/okFinal. C08_statement_holds proves the statement at full strength, no hypothesis on the schedule: C08_ok (no check of the predicate ever fails), C08_written_before_done, C08_done_once_per_scheduling, C08_store_is_last_write, C08_stop_waits (per Stop call, any number of overlapping Stop callers), C08_stop_waits_state, C08_racing_enqueue_all_or_nothing (okFinal once the writer has terminated), C08_late_enqueue_backs_out, C08_unbuffered_queue_empty, and the third clause C08_no_block_forever: from every reachable configuration and for every unfinished call there is a continuation, in which the calling thread does not move, after which it can take a step - constructed by well-founded descent (blocked queue send: the writer alone reaches a select, C08_enqueue_send_unblocked_by_writer; Stop in Wait: announced producers finish, the writer drains, commits and exits, C08_stop_wait_released; mutex: the holder releases; Once: the body thread finishes), on top of C08_waits_for_ranked (waits-for ranks Once > startStopMutex > WaitGroup/queue > writer) and C08_no_block_forever_partial (no reachable deadlock). Store errors are modelled as the code has them (sysE: any Batched()/Commit() call of the writer goroutine may fail, the goroutine panics, the process dies; simulated by sys): C08_store_error_safety (the predicate holds up to the crash), C08_store_error_crash_is_final, C08_failed_commit_batch_never_done (objects of a batch whose Commit failed: written, not committed, never done, nothing of it in the store), C08_store_error_stop_never_returns_witness (the third clause cannot hold then: a waiting Stop never returns); C08_timeout_alternative_needed_witness (without the time-out alternative of collectValues, Stop waking the writer by a flush request instead, a proved schedule deadlocks with an object written and never committed). Parts of the model are derived from the source on every run (go/ast translators collgen / callgen -> generated Lean terms -> interpreter): the collector (C08_collector_{new,Add,Commit,Commit_error}_derived, C08_collector_methods, C08_collector_committed_panics; C08_model_Add_is_collector_Add and C08_model_Commit_is_collector_Commit: the model's collector steps do what the translated Add / Commit do, in the same order, for every batch and batch size) and StopBatchWriter, Flush, startBatchWriter, Enqueue (C08_model_Stop_is_source, C08_model_Flush_is_source, C08_model_startBatchWriter_is_source, C08_model_Enqueue_is_source: stepStop / stepFlush / stepProd are the interpreted generated programs, program counter by instruction index, the yield point fused into the running check) and the writer goroutine itself (loopgen: C08_loop_compile, C08_model_writer_is_source - stepWriter is the compiled runBatchWriter at every resting instruction and phase of Add / Commit, the flags fl / again being functions of the instruction index; C08_reachable_writer_is_source - every reachable state of a running writer is such a point, via the invariant FlagsOk). Three defects were repaired (writeWg.Add before go; Enqueue counts before it checks running; the collector appends instead of indexing, so batch sizes below 1 no longer kill the process); the old Enqueue protocol is kept as sysOld with proved violating schedules C08_old_*_witness. Tie: every run's event trace (harness BatchWriteObjects writing set / delete / delete+set / set+delete + store wrapper that reads the store back after every commit, one mutex-ordered log) is judged by the Lean driver with the same predicate and by an independent index-based Go oracle (last BatchWrite per object wins, per commit and at the end); stress runs have 1-3 concurrent Stop callers, batch time-outs negative / 0 / 1ns / 1..50 ms / 250 ms, batch sizes 1..4 or default and - in a child process - 0, -1 and math.MinInt, queue sizes 0 (unbuffered) / 1..4 / default; same-batch scenario re-enqueues one object into one open batch with every pair of write modes; thousands of fresh writers per run race their very first Enqueue with StopBatchWriter (and a second Enqueue) from a spin barrier, each with a watchdog; the formerly failing schedules and a two-overlapping-Stops schedule are forced on the real code (verif yield point in Enqueue, BatchWriteScheduled callback), on buffered and unbuffered queues, and must reproduce, per participant, the model's trace on the corresponding Lean schedule; forced flush scenarios (one flush spanning several batches with the collector replaced inside the flush; a flush request pending while Stop clears running) and store-fail (child process, k-th Commit()/Batched() of the store fails: the process must die there, nothing done / committed / returned afterwards) each reproduce the model's witness run; every run's writer-goroutine log including its store calls (Batched, Cancel) and its termination must be a labelled run of the model's writer (wconfs); regenerated synchronisation skeletons (C08_skeleton_*), type facts (C08_skeleton_type_*) and normalised statements of all anchored functions, option constructors, NewBatchedWriter, newBatchCollector and the default options (C08_stmts_*).",
         "note": "Trusted: Lean kernel; hand-written model of batch_writer.go/batch_collector.go (tied by trace predicate on real traces, forced-schedule replay, skeleton / type / statement regeneration); Go sync primitive semantics (sequentially consistent atomics, Once, Mutex, WaitGroup, buffered and unbuffered channels, select) as modelled; a failed Commit applies nothing (atomic batches); counter exact below 2^31 concurrent announcements; liveness as 'every blocked call can be unblocked by a finite continuation that does not move it' (no scheduler / fairness model).",
         "technique": "Lean 4 inductive invariants over an interleaving semantics with arbitrary thread pools + constructed unblocking continuations by well-founded descent + decidable trace predicate evaluated on recorded traces + forced-schedule replay",
     },
